@@ -30,12 +30,23 @@ RULE = ('(1) exhaustive: the 103 exception classes of the model enum (names, dir
         'connection refused); (5) the same faults under ChunkStoreVisFlagsWeights of a v4 data set (NPY and S3); '
         '(6) strace of put_chunk compared with the model op list, then SIGKILL / ENOSPC / EIO / EACCES injected at '
         'each system call of the put (quick: a sample) with and without a previous chunk, and a genuine short write '
-        'on a full tmpfs for direct_write.  A case is non-trivial when a fault is present; distinct by (part, store, '
-        'geometry, fault, offset).')
+        'on a full tmpfs (plain and direct_write, with and without a previous chunk); (7) put_chunk_noraise under a '
+        'file-size limit L (RLIMIT_FSIZE in a child; a write crossing L returns a short count, a write at L fails with '
+        'EFBIG): every L in 0..size+1 of a 140-byte chunk file x {no previous chunk, previous good chunk}, for a '
+        '9728-byte chunk (two write(2) calls) and a direct_write chunk the offsets around header start/end, 512/4096/'
+        '8192-byte boundaries, file end, padded end plus a seeded random sample strictly inside header and body '
+        '(thorough: every offset of files <= 2500 bytes, more geometries incl. a 96128-byte chunk); the straced '
+        'system-call results of every put are fed to the model state machine as its event list and report, final '
+        'state, temp state and the calls issued are compared.  A case is non-trivial when a fault is present; '
+        'distinct by (part, store, geometry, fault, offset / limit, previous chunk).')
 ASSUMPTIONS = ['S3 cases use retries=0 so a persistent truncation exhausts the read retries at once (retry schedule: C09)',
                'a SIGKILL injected on entry of a system call may or may not let that call take effect: both model '
                'crash points k and k+1 are accepted',
                'the short-write case needs permission to mount a 16 KiB tmpfs; it is skipped (and counted) otherwise',
+               'the file-size-limit sweep relies on CPython ignoring SIGXFSZ (a write beyond RLIMIT_FSIZE returns a short '
+               'count / EFBIG instead of killing the process); without strace only its property half runs',
+               'after the model run of a limited put has ended (error raised) the real code may issue further FAILING '
+               'write calls (BufferedWriter flushing again on close): accepted, they have no effect',
                'header text parser of the executable model handles the canonical header numpy writes for simple dtypes']
 
 IDX = {ctor: i for i, (ctor, _) in enumerate(EXN)}
@@ -853,14 +864,78 @@ def part_vfw(ctx, tmp):
 
 SYSCALLS = 'openat,open,creat,write,pwrite64,writev,pwritev,ftruncate,truncate,rename,renameat,renameat2,unlink,unlinkat,link,linkat'
 LINE = re.compile(r'^(\d+)\s+(\w+)\((.*)\)\s+=\s+(-?\d+|\?)(.*)$')
+_STRACE_FAST = None
+
+
+def strace_fast():
+    """['--seccomp-bpf'] when this strace accepts it (only the traced system calls stop the child: the Python
+    start-up of every traced child is 2x faster), else []."""
+    global _STRACE_FAST
+    if _STRACE_FAST is None:
+        r = subprocess.run(['strace', '-f', '--seccomp-bpf', '-o', '/dev/null', '-e', 'trace=rename', 'true'], capture_output=True, text=True)
+        _STRACE_FAST = ['--seccomp-bpf'] if r.returncode == 0 and not r.stderr.strip() else []
+    return _STRACE_FAST
+
+
+_ATTACH = [True]
+
+
+class _Done:
+    def __init__(self, stdout, stderr, returncode):
+        self.stdout, self.stderr, self.returncode = stdout, stderr, returncode
+
+
+def run_child_attached(cmd, trace, tmpn, finaln, inject, timeout):
+    """Fault injection needs every traced system call to stop (no seccomp filter), which makes the Python start-up
+    of the child slow; so the child starts untraced, imports everything, says READY and waits; strace (with the
+    injection) is attached to it, and only then it is told to do the put.  Returns None when attaching fails."""
+    import select
+    if os.path.exists(trace):
+        os.remove(trace)
+    p = subprocess.Popen(cmd, stdin=subprocess.PIPE, stdout=subprocess.PIPE, stderr=subprocess.PIPE, text=True,
+                         env=dict(child_env(), C08_WAIT='1'))
+    st = None
+    try:
+        line = ''
+        if select.select([p.stdout], [], [], 60)[0]:
+            line = p.stdout.readline()
+        if line.strip() != 'READY':
+            out, err = p.communicate(timeout=timeout)
+            return _Done(line + out, err, p.returncode)      # e.g. CONSTRUCT <error>: nothing to trace
+        st = subprocess.Popen(['strace', '-f', '-p', str(p.pid), '-o', trace, '-e', 'trace=' + SYSCALLS, '-P', tmpn, '-P', finaln,
+                               '-e', 'inject=' + inject], stdout=subprocess.DEVNULL, stderr=subprocess.PIPE, text=True)
+        ok = False
+        if select.select([st.stderr], [], [], 15)[0]:
+            ok = 'attached' in st.stderr.readline()
+        if not ok:
+            p.kill()
+            p.communicate()
+            return None
+        out, err = p.communicate('\n', timeout=timeout)
+        try:
+            st.wait(timeout=15)
+        except subprocess.TimeoutExpired:
+            st.kill()
+        return _Done(out, err, p.returncode)
+    finally:
+        if p.poll() is None:
+            p.kill()
+        if st is not None and st.poll() is None:
+            st.kill()
 
 
 def run_child(d, direct, dt, shape, seed, inject=None, trace=None, timeout=180):
     base = os.path.join(d, 'a', '_'.join('%05d' % 0 for _ in shape))
     tmpn, finaln = base + '.writing.npy', base + '.npy'
     cmd = [sys.executable, CHILD, d, '1' if direct else '0', dt, ','.join(str(s) for s in shape), str(seed)]
+    if trace and inject and _ATTACH[0]:
+        r = run_child_attached(cmd, trace, tmpn, finaln, inject, timeout)
+        if r is not None:
+            res = [l for l in r.stdout.splitlines() if l.startswith('RESULT ')]
+            return (res[0].split()[1:] if res else None), tmpn, finaln, r
+        _ATTACH[0] = False      # strace -p does not work here: trace the child from its start instead
     if trace:
-        pre = ['strace', '-f', '-o', trace, '-e', 'trace=' + SYSCALLS, '-P', tmpn, '-P', finaln]
+        pre = ['strace', '-f'] + ([] if inject else strace_fast()) + ['-o', trace, '-e', 'trace=' + SYSCALLS, '-P', tmpn, '-P', finaln]
         if inject:
             pre += ['-e', 'inject=' + inject]
         cmd = pre + cmd
@@ -1056,6 +1131,9 @@ def part_put(ctx, tmp):
 def part_short_write(ctx, tmp):
     """direct_write on a nearly full 16 KiB tmpfs: write(2) of the padded buffer comes back short."""
     from katdal.chunkstore import npy_header_and_body
+    if getattr(ctx, '_c08_short_write_done', False):
+        return          # already run as the witness of C08-F5e in this check
+    ctx._c08_short_write_done = True
     mnt = tmp + '/tmpfs'
     os.makedirs(mnt, exist_ok=True)
     r = subprocess.run(['mount', '-t', 'tmpfs', '-o', 'size=16k', 'tmpfs', mnt], capture_output=True, text=True)
@@ -1086,9 +1164,13 @@ def part_short_write(ctx, tmp):
                          [exp[0], len(exp[1][0]) if exp[1] else None, len(exp[2][0]) if exp[2] else None],
                          'outcome of a short write differs from the model', kind='tie')
         if fin and bytes(fin[0]) != new_bytes:
-            y = np.load(finaln) if True else None
-            ctx.disagree('store=npy;direct_write;fault=short_write;symptom=zero_padded_chunk_published', case,
-                         dict(report=rep, final_size=len(fin[0]), wrong_elements=int(np.sum(y != new)) if y.shape == new.shape else -1),
+            try:
+                y = np.load(finaln)
+                wrong = int(np.sum(y != new)) if y.shape == new.shape else -1
+            except Exception:
+                wrong = -2          # not even loadable
+            ctx.disagree('store=npy;direct_write;fault=short_write;symptom=%s' % ('zero_padded_chunk_published' if wrong > -2 else 'damaged_chunk_published'), case,
+                         dict(report=rep, final_size=len(fin[0]), wrong_elements=wrong),
                          'final absent, error reported',
                          'a short write was padded with zeros by ftruncate and renamed onto the final name: a reader gets wrong data')
         if not fin and (rep is None or rep[1] == 'builtins.NoneType'):
@@ -1097,6 +1179,253 @@ def part_short_write(ctx, tmp):
         ctx.count('short_write_cases')
     finally:
         subprocess.run(['umount', mnt], capture_output=True)
+    # the same on the plain path and on top of a previous good chunk (property only): the file system fills up
+    # strictly inside the body, write(2) comes back short (page granularity), then ENOSPC
+    dt, shape = 'u1', (9000,)
+    new, old = make_chunk(dt, shape, 2), make_chunk(dt, shape, 1)
+    new_bytes, old_bytes = _old_bytes(new), _old_bytes(old)
+    for direct, with_old in ((False, False), (False, True), (True, True)):
+        if subprocess.run(['mount', '-t', 'tmpfs', '-o', 'size=16k', 'tmpfs', mnt], capture_output=True).returncode != 0:
+            ctx.count('short_write_env_unavailable')
+            return
+        try:
+            os.makedirs(mnt + '/a')
+            finaln = mnt + '/a/00000.npy'
+            if with_old:
+                with open(finaln, 'wb') as f:       # 3 of the 4 pages: one page is left for the new chunk
+                    f.write(old_bytes)
+            else:
+                with open(mnt + '/filler', 'wb') as f:
+                    f.write(b'\0' * 8192)
+            rep, tmpn, finaln, _ = run_child(mnt, direct, dt, shape, 2)
+            fin = file_entry(finaln)
+            state = 'absent' if not fin else 'old' if bytes(fin[0]) == old_bytes else 'new' if bytes(fin[0]) == new_bytes else 'damaged'
+            case = dict(part='short_write', direct_write=direct, dtype=dt, shape=list(shape), previous_chunk=with_old,
+                        free_bytes=4096 if with_old else 8192)
+            sig = 'part=short_write;direct=%s;previous=%s;symptom=' % (direct, 'good_chunk' if with_old else 'absent')
+            ctx.traces_validated += 1
+            if rep is None and direct:
+                ctx.count('direct_write_unsupported')
+                continue
+            prev = 'old' if with_old else 'absent'
+            if state not in (prev, 'new'):
+                ctx.disagree(sig + 'final_' + state, case, state, [prev, 'new'],
+                             'a put on a full file system left neither the previous state nor the complete new chunk under the final name')
+            if rep is None or rep[0] != 'returned' or (rep[1] == 'builtins.NoneType' and state != 'new'):
+                ctx.disagree(sig + 'failure_swallowed', case, rep, 'a returned error object', 'failed put (ENOSPC inside the body) not reported')
+            ctx.note_case(('short_write', direct, with_old), nontrivial=True, sample=dict(case, report=rep, final=state))
+            ctx.count('short_write_cases')
+        finally:
+            subprocess.run(['umount', mnt], capture_output=True)
+
+
+# ------------------------------------------------------------------------------------------------
+# part 7: puts under a file-size limit at every byte offset (short writes on the plain and the direct path)
+
+LIMIT_CONFIGS_QUICK = [(False, 'u1', (3, 4)), (False, '<f8', (40, 30)), (True, 'u1', (9000,))]
+LIMIT_CONFIGS_MORE = [(False, '<c8', (2, 3, 2)), (False, '<i2', (40, 25)), (False, '<f8', (300, 40)), (False, 'u1', (70000,)), (True, 'u1', (3, 4)),
+                      (True, '<c8', (40, 30)), (False, '<f4', (5,))]
+
+
+def limit_plan(ctx, direct, S, hdr, every):
+    """Limits to try for a chunk file of S bytes with an hdr-byte header: every byte offset when `every`, else
+    every offset around the places where behaviour changes plus a random sample strictly inside header and body."""
+    pad = -S % 4096 if direct else 0
+    if every:
+        lims = set(range(0, S + 2))
+    else:
+        lims = {0, 1, 2, hdr // 2, hdr - 1, hdr, hdr + 1, S - 2, S - 1, S, S + 1}
+        for b in (512, 4096, 8192, 65536, 131072):
+            lims |= {b - 1, b, b + 1}
+        n = 1 if ctx.tier != 'thorough' else 6 if S <= 20000 else 2
+        lims |= {ctx.rng.randrange(1, hdr) for _ in range(6 * n)}
+        lims |= {ctx.rng.randrange(hdr + 1, S) for _ in range(14 * n)}
+    if direct:
+        lims |= {k for k in range(0, S + pad + 1, 512)} | {S + pad, S + pad + 1}
+    out = []
+    for L in sorted(l for l in lims if 0 <= l <= S + pad + 1):
+        olds = (0, 1) if (every or ctx.tier == 'thorough' or L in (hdr - 1, hdr + 1, S - 1)) else (ctx.rng.randrange(2),)
+        out += [[L, o] for o in olds]
+    return out
+
+
+def parse_limit_trace(path, tmpn, finaln, sep):
+    """strace output of a limits sweep -> {i: [(kind, arg, ret, errno name)]} for the calls between the markers."""
+    import errno as _errno
+    runs, cur = {}, None
+    for line in open(path):
+        m = LINE.match(line.rstrip())
+        if not m:
+            if 'unfinished' in line or 'resumed' in line:
+                raise RuntimeError('interleaved strace line: ' + line[:100])
+            continue
+        _, sc, args, ret, rest = m.groups()
+        if sc == 'truncate' and sep in args:
+            n = int(args.split(', ')[-1])
+            if n % 2 == 0:
+                cur = n // 2
+                runs[cur] = []
+            else:
+                cur = None
+            continue
+        if cur is None:
+            continue
+        r = -1 if ret == '?' else int(ret)
+        err = rest.split()[0] if r < 0 and rest.split() else None
+        if sc in ('openat', 'open', 'creat'):
+            kind = 0 if (tmpn in args and 'O_CREAT' in args and 'O_TRUNC' in args) else -1
+            runs[cur].append((kind, 0, r, err))
+        elif sc in ('write', 'pwrite64'):
+            runs[cur].append((1, int(args.split(', ')[-1 if sc == 'write' else -2]), r, err))
+        elif sc in ('ftruncate',):
+            runs[cur].append((2, int(args.split(', ')[-1]), r, err))
+        elif sc.startswith('rename'):
+            names = re.findall(r'"([^"]*)"', args)
+            runs[cur].append((3 if names[:2] == [tmpn, finaln] else -1, 0, r, err))
+        else:
+            runs[cur].append((-1, 0, r, err))
+    return runs
+
+
+def oserror_index(name):
+    import errno as _errno
+    return exn_index(OSError(getattr(_errno, name, _errno.EIO), 'x'))
+
+
+def part_put_limit(ctx, tmp, only=None):
+    from katdal.chunkstore import npy_header_and_body
+    import json
+    if shutil.which('strace') is None:
+        ctx.count('strace_unavailable')
+    configs = list(LIMIT_CONFIGS_QUICK) + (LIMIT_CONFIGS_MORE if ctx.tier == 'thorough' else [])
+    if only is not None:
+        configs = [tuple(only[:3])]
+    for ci, (direct, dt, shape) in enumerate(configs):
+        shape = tuple(shape)
+        d = '%s/lim%d' % (tmp, ci)
+        os.makedirs(d + '/a', exist_ok=True)
+        new, old = make_chunk(dt, shape, 2), make_chunk(dt, shape, 1)
+        hdr, body = npy_header_and_body(new)
+        new_bytes, hlen = bytes(hdr) + body.tobytes(), len(bytes(hdr))
+        S = len(new_bytes)
+        base = os.path.join(d, 'a', '_'.join('%05d' % 0 for _ in shape))
+        tmpn, finaln, sep = base + '.writing.npy', base + '.npy', d + '/sep'
+        open(sep, 'wb').close()
+        if only is not None:
+            plan = [[None, 0], [only[3], 1 if only[4] else 0]]
+        else:
+            plan = [[None, 0]] + limit_plan(ctx, direct, S, hlen, every=(S <= 200 or (ctx.tier == 'thorough' and S <= 2500 and not direct)))
+        trace = d + '/trace.txt'
+        cmd = [sys.executable, CHILD, d, '1' if direct else '0', dt, ','.join(str(x) for x in shape), '2']
+        use_strace = shutil.which('strace') is not None
+        if use_strace:
+            cmd = ['strace', '-f'] + strace_fast() + ['-o', trace, '-e', 'trace=' + SYSCALLS, '-P', tmpn, '-P', finaln, '-P', sep] + cmd
+        r = subprocess.run(cmd, input=json.dumps(dict(limits=plan, sep=sep)), capture_output=True, text=True,
+                           env=dict(child_env(), C08_MODE='limits'), timeout=600)
+        obs = [json.loads(l[6:]) for l in r.stdout.splitlines() if l.startswith('LIMIT ')]
+        after = [json.loads(l[6:]) for l in r.stdout.splitlines() if l.startswith('AFTER ')]
+        cfg = dict(part='put_limit', direct_write=direct, dtype=dt, shape=list(shape))
+        if len(obs) != len(plan) or not after:
+            if direct and obs and obs[0]['rep'][1] != 'builtins.NoneType':
+                ctx.count('direct_write_unsupported')
+                continue
+            ctx.disagree('part=put_limit;symptom=child_failed', cfg, r.stderr[-400:], 'one line per put', 'sweep child failed', kind='tie')
+            continue
+        if obs[0]['rep'][1] != 'builtins.NoneType' or obs[0]['final'] != ['new']:
+            if direct:
+                ctx.count('direct_write_unsupported')
+                continue
+            ctx.disagree('part=put_limit;symptom=healthy_put_failed', cfg, obs[0], 'returned None, final new', 'a healthy put failed', kind='tie')
+            continue
+        runs = parse_limit_trace(trace, tmpn, finaln, sep) if use_strace else {}
+        # the byte strings the code hands to write(2) when nothing goes wrong, from the unlimited put
+        sizes, trunc = None, None
+        if use_strace:
+            h = runs.get(0, [])
+            sizes = [c[1] for c in h if c[0] == 1]
+            trunc = next((c[1] for c in h if c[0] == 2), None)
+            if any(c[2] < 0 or (c[0] == 1 and c[2] != c[1]) or c[0] < 0 for c in h) or sum(sizes) < S:
+                ctx.disagree('part=put_limit;direct=%s;symptom=healthy_trace' % direct, cfg, h, 'complete writes', 'system calls of a healthy put not understood', kind='tie')
+                sizes = None
+        padded = new_bytes + b'\0' * ((sum(sizes) - S) if sizes else 0)
+        writes, pos = [], 0
+        for sz in sizes or []:
+            writes.append(list(padded[pos:pos + sz]))
+            pos += sz
+        if after[0]['rep'] != 'None' or after[0]['reader'] not in ('new', 'array'):
+            ctx.disagree('part=put_limit;direct=%s;symptom=later_put_failed' % direct, cfg, after[0], 'None / new',
+                         'a put after the limit was lifted fails or is not visible')
+        todo, cases = [], []
+        for o in obs[1:]:
+            L, with_old, i = o['limit'], bool(o['old']), o['i']
+            where = ('start' if L == 0 else 'header' if L < hlen else 'header_end' if L == hlen else 'body' if L < S
+                     else 'padding' if L < len(padded) else 'enough')
+            case = dict(cfg, limit=L, previous_chunk=with_old, where=where, size=S)
+            rep = o['rep']
+            success = rep[0] == 'returned' and rep[1] == 'builtins.NoneType'
+            state = o['final'][0]
+            sig = 'part=put_limit;direct=%s;where=%s;previous=%s;symptom=' % (direct, where, 'good_chunk' if with_old else 'absent')
+            ctx.traces_validated += 1
+            # ---- the property, on the observation alone
+            allowed = {'old' if with_old else 'absent', 'new'}
+            if state not in allowed:
+                ctx.disagree(sig + 'final_%s' % ('damaged' if state == 'other' else state), case, o['final'], sorted(allowed),
+                             'after a put that hit a file-size limit the final name holds neither the previous nor the complete new chunk')
+            if success and state != 'new':
+                ctx.disagree(sig + 'failure_swallowed', case, rep, 'an error object',
+                             'put_chunk_noraise reported success although the complete chunk is not in place')
+            if not success and rep[0] == 'raised':
+                ctx.disagree(sig + 'raised_not_returned', case, rep, 'a returned ChunkStoreError', 'put_chunk_noraise raised')
+            want = {'new': ('new', 'array'), 'old': ('old', 'array'), 'absent': ('raise:katdal.chunkstore.ChunkNotFound',)}.get(state)
+            if want is not None and o['reader'] not in want:
+                ctx.disagree(sig + 'reader_%s' % o['reader'].split('.')[-1], case, o['reader'], want,
+                             'a fresh reader does not see the previous state or the complete new chunk')
+            if state == 'other' and not o['reader'].startswith('raise:'):
+                ctx.disagree(sig + 'damaged_chunk_read_as_data', case, o['reader'], 'an error', 'a damaged chunk file was returned as data')
+            extra = [n for n in o['listing'] if n not in (os.path.basename(tmpn), os.path.basename(finaln))]
+            if extra:
+                ctx.disagree(sig + 'stray_files', case, extra, [], 'files other than the temp and final names were left behind', kind='tie')
+            ctx.note_case(('putL', direct, dt, shape, L, with_old), nontrivial=L < len(padded),
+                          sample=dict(case, report=rep, final=o['final'], tmp=o['tmp'], reader=o['reader']) if where in ('header', 'body') and i % 7 == 0 else None)
+            ctx.count('put_limit:' + where)
+            # ---- the tie: the model run on the answers the kernel actually gave
+            if not (use_strace and sizes and ctx.model_ok):
+                continue
+            calls = runs.get(i, [])
+            evs = [[2, oserror_index(c[3] or 'EIO')] if c[2] < 0 else [3, c[2]] if (c[0] == 1 and c[2] < c[1]) else [0] for c in calls]
+            todo.append([81, [11, codes(base), writes, [trunc] if trunc is not None else [], 1, evs, [list(_old_bytes(old))] if with_old else []]])
+            cases.append((case, sig, o, calls))
+        outs = ctx.model(todo) if todo else []
+        for (case, sig, o, calls), m in zip(cases, outs):
+            rep = o['rep']
+            qn = rep[1]
+            qi = [q for _, q in EXN].index(qn) if qn in [q for _, q in EXN] else -1
+            obs_rep = [0] if qn == 'builtins.NoneType' else [1 if rep[0] == 'returned' else 2, qi]
+            old_b = _old_bytes(old)
+
+            def st(entry):
+                if not entry:
+                    return ['absent']
+                b = bytes(entry[0])
+                return ['new'] if b == new_bytes else ['old'] if b == old_b else ['other', len(b), new_bytes[:len(b)] == b]
+            mobs = [m[0], st(m[1]), st(m[2])]
+            if [obs_rep, o['final'], o['tmp']] != mobs:
+                ctx.disagree(sig + 'state;tie', case, [obs_rep, o['final'], o['tmp']], mobs,
+                             'report / final file / temp file after the limited put differ from the model run on the same system-call results', kind='tie')
+            mcalls = [tuple(c) for c in m[3]]
+            tcalls = [(c[0], c[1]) for c in calls]
+            tail = calls[len(mcalls):]
+            if tcalls[:len(mcalls)] != mcalls or any(c[2] >= 0 or c[0] != 1 for c in tail):
+                ctx.disagree(sig + 'calls;tie', case, tcalls, mcalls,
+                             'system calls issued by the limited put differ from the calls of the model run '
+                             '(beyond them only failing flush attempts are accepted)', kind='tie')
+        shutil.rmtree(d, ignore_errors=True)
+
+
+def _old_bytes(old):
+    from katdal.chunkstore import npy_header_and_body
+    h, b = npy_header_and_body(old)
+    return bytes(h) + b.tobytes()
 
 
 # ------------------------------------------------------------------------------------------------
@@ -1225,6 +1554,7 @@ def run(ctx):
         part_npy_store_faults(ctx, tmp)
         part_vfw(ctx, tmp)
         part_put(ctx, tmp)
+        part_put_limit(ctx, tmp)
         ctx.exhaustive = False
         ctx.extra['exhaustive_parts'] = ['exception enum: names, bases, isinstance matrix',
                                          'standard_errors + getters: 4 maps x every class of the enum']
@@ -1241,6 +1571,7 @@ def search_without_model(ctx, tmp):
     store = NpyFileChunkStore(d)
     part_mismatch(ctx, tmp)
     part_vfw(ctx, tmp)
+    part_put_limit(ctx, tmp)
     for dt, shape in GEOMS_QUICK:
         x = make_chunk(dt, shape, 3)
         if x.size == 0:
@@ -1284,6 +1615,8 @@ def replay(ctx, doc):
             part_vfw(ctx, tmp)
         elif part in ('put_trace', 'put_fault'):
             part_put(ctx, tmp)
+        elif part == 'put_limit':
+            part_put_limit(ctx, tmp, only=(case['direct_write'], case['dtype'], case['shape'], case['limit'], case['previous_chunk']))
         elif part == 'npy_corruption':
             part_npy_truncation(ctx, tmp)
         else:
